@@ -55,7 +55,7 @@ RULE = ('address sweep: 9 senders x 26 recipient lists (1..3 addresses incl. quo
         'dropped, all, none, SIZE=50, AUTH, STARTTLS, HELO fallback, connection re-use, 7-bit conversion with an encoder) and x '
         'LMTP and HTTP transports.  Non-trivial = envelope with a quoted/UTF-8/null address, 8-bit or dot-leading content, or '
         'a configuration that cannot carry it.')
-ASSUMPTIONS = ['in-memory sockets and fake TLS; WSGI environ built as gevent.pywsgi does (repeated headers joined with ",")',
+ASSUMPTIONS = ['in-memory sockets (a sample of the SMTP hops is replayed over real gevent sockets on the real loop and must give the same result) and fake TLS; WSGI environ built as gevent.pywsgi does (repeated headers joined with ",")',
                'an 8-bit header value without 8BITMIME is not judged; with a binary encoder only addresses and 7-bit-ness are judged']
 
 
@@ -109,13 +109,35 @@ class CaptureQueue(object):
         return [(envelope, 'id%d' % len(self.got))]
 
 
-def run_smtp_hop(cfg, envs):
+class _RealWorld(object):
+    """Stand-in for World when a scenario is replayed on the real gevent loop with real sockets."""
+    def __enter__(self):
+        return self
+
+    def __exit__(self, *a):
+        return False
+
+    def errors(self):
+        return []
+
+
+class _RealNet(object):
+    def __init__(self):
+        self.connections = 0
+
+    def pair(self, peername=None):
+        import gevent.socket
+        self.connections += 1
+        return gevent.socket.socketpair()
+
+
+def run_smtp_hop(cfg, envs, real=False):
     """-> list of (outcome, captured or None) per envelope, plus (client_exts, server_exts)"""
     info = {'client_exts': None, 'server_exts': None, 'errors': []}
     cq = CaptureQueue()
     outcomes = []
-    with World(Chooser(), max_steps=5000) as w:
-        net = Net(w)
+    with (_RealWorld() if real else World(Chooser(), max_steps=5000)) as w:
+        net = _RealNet() if real else Net(w)
 
         class Srv(Server):
             def __init__(self, *a, **k):
@@ -172,8 +194,11 @@ def run_smtp_hop(cfg, envs):
                     except BaseException as e:
                         o = ('raised', e)
                     outcomes.append((o, cq.got[n0:]))
-            gevent.spawn(go)
-            w.run_until_quiescent()
+            g = gevent.spawn(go)
+            if real:
+                g.join(timeout=10)
+            else:
+                w.run_until_quiescent()
         finally:
             edge_smtp.Server, edge_smtp.PtrLookup = saved
         info['errors'] += [e[0] for e in w.errors()]
@@ -461,6 +486,17 @@ def run_config(cfg, tier, seed):
                 for sig, msg in vs:
                     res.violation(sig, msg, {'t': 'smtp', 'cfg': cfg['cfg'], 'env': [s, rl, b2s(h), b2s(b)]})
             res.interesting((sc['name'], s, tuple(rl), b))
+            if not sc.get('tls') and i % 19 == cfg['k']:
+                # conformance of the in-memory sockets: same hop over real gevent sockets on the real loop
+                r_out, r_info = run_smtp_hop(sc, [e.copy() for e in envs], real=True)
+                res.traces_validated += 1
+                res.count('real_socket_replays')
+                a = [(classify(o, env), cap) for o, cap in outcomes]
+                b_ = [(classify(o, env), cap) for o, cap in r_out]
+                if a != b_:
+                    res.violation({'transport': 'smtp', 'kind': 'in-memory-socket-differs-from-real-socket'},
+                                  'config %s sender %r rcpts %r: virtual %r real %r' % (sc['name'], s, rl, a, b_),
+                                  {'t': 'smtp', 'cfg': cfg['cfg'], 'env': [s, rl, b2s(h), b2s(b)]})
             if i % 150 == cfg['k']:
                 res.sample({'transport': 'smtp', 'config': sc['name'], 'sender': s, 'recipients': rl, 'body': b2s(b)})
     else:
